@@ -630,12 +630,25 @@ class SymCtx:
 
     def uf(self, name, *args):
         """Uninterpreted real function applied to symbolic/concrete reals."""
-        from .values import lift
+        from .values import lift, Sym, EXP_pair, _mul
         zs = []
         for a in args:
             a = lift(a)
-            zs.append(a.real())
-        from .values import Sym
+            if isinstance(a, float):
+                raise ValueError("uninterpreted function applied to a non-finite value")
+            if a.num is None:
+                zs.append(a.real())
+            else:
+                # log-kind argument p + log(n/d): a fresh real r with exp(r - p) = n/d (exp is injective: full axioms)
+                key = ("asreal", a.p.get_id(), a.num.get_id(), a.den.get_id())
+                r = self.aux.get(key)
+                if r is None:
+                    r = z3.Real(f"asreal!{len(self.aux)}")
+                    self.aux[key] = r
+                    self.keep.append(a)
+                    P, Q = EXP_pair(r - a.real())
+                    self.add_hyp(_mul(P, a.den) == _mul(Q, a.num))
+                zs.append(r)
         return Sym(self.func(name, len(zs))(*zs))
 
 
@@ -801,8 +814,18 @@ class ConcCtx:
         """Concrete stand-in for an uninterpreted function: a fixed, injective-ish
         deterministic real function of its arguments."""
         import hashlib
-        h = hashlib.sha256((name + repr([float(a) for a in args])).encode()).digest()
-        return (int.from_bytes(h[:6], "big") / 2**48) * 8.0 - 4.0
+        # smooth (Lipschitz) pseudo-random function of the arguments: equal arguments up to rounding give equal values up to rounding
+        h = hashlib.sha256(name.encode()).digest()
+        v = 0.0
+        for k, a in enumerate(args):
+            a = float(a)
+            if not math.isfinite(a):
+                return math.nan
+            c1 = 0.5 + h[(3 * k) % 32] / 255.0
+            c2 = 0.3 + h[(3 * k + 1) % 32] / 400.0
+            c3 = h[(3 * k + 2) % 32] / 40.0
+            v += c1 * math.sin(c2 * a + c3) + 0.37 * (k + 1) * math.tanh(0.21 * a * (1 + h[(k + 7) % 32] / 255.0))
+        return 1.7 * v
 
 
 # ---------------------------------------------------------------------------
